@@ -222,6 +222,15 @@ def gen_c02(seed, tier):
             sc.mk_crypt(0, blk, tweak=tw)
         sc.mk_set_tweak(0, None)
         sc.mk_crypt(0, sc.rb(8))
+    sc.reset("c02-patterns")
+    for r in (5, 6, 7, 8):
+        for mode in (1, 0):
+            for kpat, tpat, bpat in ((0x00, 0x00, 0x00), (0xFF, 0xFF, 0xFF), (0x00, 0xFF, 0x00), (0xFF, 0x00, 0xAA),
+                                     (0x55, 0x00, 0xFF)):
+                sc.mk_set_key(0, bytes([kpat]) * 16, r, mode)
+                sc.mk_set_tweak(0, bytes([tpat]) * 8)
+                sc.mk_crypt(0, bytes([bpat]) * 8)
+                sc.mk_crypt(0, bytes([bpat]) * 8, tweak=bytes([tpat ^ 0x0F]) * 8)
     sc.reset("c02-rand")
     for i in range(1500 if thorough else 24):
         r = 5 + sc.rng.randrange(4)
@@ -1589,6 +1598,13 @@ def gen_composite(seed, tier, cap_for=lambda k: 2, extra_head=()):
     parts = [gen_c01(seed, "quick"), gen_c02(seed, "quick"), gen_c03(seed, "quick", cap_for),
              gen_c04(seed, "quick", cap_for), gen_ctr(seed, "quick", cap_for, c06=True),
              gen_c07(seed, "quick", cap_for), gen_c10(seed, "quick", cap_for), gen_c14(seed, "quick", cap_for)]
+    # the CTR and parallel scenario sets again under the lower back-end caps, so that every build of a
+    # matrix and every thread exercises each back end it has compiled in (not only the widest)
+    if cap_for("s128") == 2:
+        for cap in (1, 0):
+            cf = (lambda k, cap=cap: cap)
+            parts += [gen_ctr(seed + 10 + cap, "quick", cf, c06=True), gen_c07(seed + 10 + cap, "quick", cf),
+                      gen_c03(seed + 10 + cap, "quick", cf)]
     if tier == "thorough":
         parts += [gen_c15(seed, "quick", cap_for), gen_c17(seed, "quick", cap_for),
                   gen_ctr(seed + 7, "quick", cap_for, c06=True), gen_c04(seed + 7, "quick", cap_for)]
